@@ -9,6 +9,7 @@ mod rx;
 mod sock;
 mod segs;
 mod mtu;
+mod net;
 mod txring;
 mod util;
 mod vsock;
@@ -23,6 +24,7 @@ pub struct St {
     pub vs: vsock::Vs,
     pub cubic: cubic::CubicSt,
     pub sock: sock::SockSt,
+    pub net: net::NetSt,
 }
 
 fn step(st: &mut St, line: &str) -> String {
@@ -38,6 +40,7 @@ fn step(st: &mut St, line: &str) -> String {
         Some((&"vs", args)) => vsock::step_vs(&mut st.vs, args),
         Some((&"cubic", args)) => cubic::step_cubic(&mut st.cubic, args),
         Some((&"sock", args)) => sock::step_sock(&mut st.sock, args),
+        Some((&"net", args)) => net::step_net(&mut st.net, args),
         Some((&"rtte", args)) => pure::step_rtte(&mut st.rtte, args),
         _ => "bad-op".into(),
     }
@@ -60,6 +63,7 @@ fn main() {
         vs: vsock::Vs::new(),
         cubic: cubic::CubicSt::new(),
         sock: sock::SockSt::new(),
+        net: net::NetSt::new(),
     };
     for line in stdin.lock().lines() {
         let line = line.unwrap();
